@@ -1387,14 +1387,21 @@ impl<T> Arena<T> {
     {
         self.nodes.reserve(additional);
     }
-    #[verifier::external_body]
-    pub fn get_node_id(&self, node: &Node<T>) -> Option<NodeId> {
-        let nodes_range = self.nodes.as_ptr_range();
-        let p = node as *const Node<T>;
-        if !nodes_range.contains(&p) {
-            return None;
+    pub fn get_node_id(&self, node: &Node<T>) -> (r: Option<NodeId>)
+        // @props C11
+        ensures
+            // @ob C11.get_node_id_names_the_slot_holding_the_node C11
+            r is Some ==> r->0.idx() < self.nodes@.len() && self.nodes@[r->0.idx()] == *node,
+            // @ob C11.get_node_id_carries_the_slot_stamp C11
+            r is Some ==> r->0.stamp == node.stamp,
+    {
+        let node_index = match vx_slice_position(&self.nodes, node) {
+            Some(i) => i,
+            None => return None,
+        };
+        proof {
+            axiom_vec_node_len(&self.nodes);
         }
-        let node_index = (p as usize - nodes_range.start as usize) / mem::size_of::<Node<T>>();
         let node_id = NonZeroUsize::new(node_index.wrapping_add(1))?;
         Some(NodeId::from_non_zero_usize(
             node_id,
